@@ -627,7 +627,7 @@ func TestVP_C05_kernel_admission(t *testing.T) {
 		"template-deposit", "template-transfer", "template-submit", "template-custodian", "template-pledge", "template-accept", "template-remove", "template-mint",
 		"mut-maps-none", "mut-maps-short", "mut-maps-long", "mut-maps-shift", "mut-out-type", "mut-out-amount", "mut-in-repoint", "mut-in-special", "mut-storage-out", "mut-aggregate", "mut-refs", "mut-extra", "mut-remove-typed-unsigned",
 		"in-genesis-accept", "in-genesis-custodian", "type-9", "type-0", "unmutated", "self-observer", "self-member", "clock-wall", "clock-ledger", "clock-behind", "nodes-8")
-	kit.SetChecks(kit.N(60, 3000))
+	kit.SetChecks(kit.N(40, 1600))
 	rapid.Check(t, func(t *rapid.T) {
 		e, err := vpC05Start(t)
 		if err != nil {
